@@ -352,6 +352,22 @@ impl<'a, C: Ctx> Shuffler<'a, C> {
         let h_generators = &self.generators[1..];
         let h_initial = &self.generators[0];
 
+        // A proof must carry exactly one permutation commitment, one chain
+        // commitment, one chain proof-commitment and one pair of responses
+        // per ciphertext, for a non-empty statement whose input and output
+        // lists have the same length. Anything else is rejected here, before
+        // any of these vectors is indexed.
+        if N == 0
+            || e_primes.len() != N
+            || proof.cs.0.len() != N
+            || proof.c_hats.0.len() != N
+            || proof.t.t_hats.0.len() != N
+            || proof.s.s_hats.0.len() != N
+            || proof.s.s_primes.0.len() != N
+        {
+            return Ok(false);
+        }
+
         assert!(N == e_primes.len());
         assert!(N == h_generators.len());
 
